@@ -1,5 +1,5 @@
 use crate::{
-    fragment::{Bounds, Rect},
+    fragment::{Bounds, Line, Rect},
     Fragment,
 };
 
@@ -55,14 +55,28 @@ fn is_rect(fragments: &[&Fragment]) -> bool {
             let line_b1 = fragments[b1].as_line().expect("expecting a line");
             let line_a2 = fragments[a2].as_line().expect("expecting a line");
             let line_b2 = fragments[b2].as_line().expect("expecting a line");
-            line_a1.is_touching_aabb_perpendicular(line_b1)
-                && line_a2.is_touching_aabb_perpendicular(line_b2)
+            // Every side must meet both sides of the other pair at a common end point,
+            // that is at a corner. Lines that merely touch somewhere along the other line
+            // (ladders, T junctions, overhanging sides) do not form a rectangle.
+            line_a1 != line_a2
+                && line_b1 != line_b2
+                && line_a1.is_aabb_perpendicular(line_b1)
+                && line_a2.is_aabb_perpendicular(line_b2)
+                && is_corner(line_a1, line_b1)
+                && is_corner(line_a1, line_b2)
+                && is_corner(line_a2, line_b1)
+                && is_corner(line_a2, line_b2)
         } else {
             false
         }
     } else {
         false
     }
+}
+
+/// the 2 lines meet at a common end point
+fn is_corner(line1: &Line, line2: &Line) -> bool {
+    line1.has_endpoint(line2.start) || line1.has_endpoint(line2.end)
 }
 
 /// qualifications:
